@@ -253,11 +253,19 @@ def run_word(word, out):
                 # /api/cmd/reset): refused without any effect unless the
                 # pipeline is at rest in running
                 import dawgie.fe.api as api
+                import dawgie.fe.app as app
 
                 active = r.fsm.is_pipeline_active()
                 before = r.snapshot()
+                legacy = len(ev) > 2 and ev[2]
+                if legacy:
+                    out.label('reset-through-the-legacy-endpoint')
                 try:
-                    res = api.cmd_reset(['true'] if ev[1] else None)
+                    if legacy:  # GET /app/reset
+                        res = app.schedule_reset(['true'] if ev[1]
+                                                 else ['false'])
+                    else:
+                        res = api.cmd_reset(['true'] if ev[1] else None)
                 except transitions.MachineError as exc:
                     out.fail('reject/reset-not-refused-before-acting',
                              f'{where}: state={before[0]} -> {exc}')
@@ -353,6 +361,7 @@ _ev = st.one_of(
     st.tuples(st.just('status'), st.sampled_from([0, 0, 0, 1])).map(list),
     st.tuples(st.just('status'), st.sampled_from([0, 0, 0, 1])).map(list),
     st.tuples(st.just('reset'), st.integers(0, 1)).map(list),
+    st.tuples(st.just('reset'), st.integers(0, 1), st.just(1)).map(list),
 )
 _word = st.fixed_dictionaries({
     'word': st.lists(_ev, min_size=2, max_size=24).map(
